@@ -3,6 +3,7 @@ import argparse
 import importlib
 import json
 import os
+import signal
 import subprocess
 import sys
 import traceback
@@ -20,6 +21,15 @@ def cmd_check(args) -> int:
         seed = 0
     pid = args.id.upper()
     ctx = core.Ctx(pid, tier, seed)
+    limit = int(os.environ.get('VF_WATCHDOG', '1500' if tier == 'quick' else '14400'))
+
+    def on_alarm(_sig, _frm):
+        print(f'HARNESS-ERROR {pid}: watchdog of {limit}s expired (no verdict)')
+        sys.stdout.flush()
+        os.killpg(os.getpgid(0), signal.SIGKILL) if os.getpgid(0) == os.getpid() else os._exit(2)
+
+    signal.signal(signal.SIGALRM, on_alarm)
+    signal.alarm(limit)
     try:
         core.import_guard()
         mod = importlib.import_module(f'vf.checks.{pid.lower()}')
